@@ -26,6 +26,7 @@ ASSUMPTIONS = [
 def bounds(tier):
     q = tier == "quick"
     return {"maf": f"dim 1..{3 if q else 4} x cond {{None,1,2}} x width {{1,2,3,5}} x depth {{0,1,2}} x transformer params/dim {{1,2,8}}",
+            "maf_sizes": "dim 2..6 x every width dim..2dim+1 x cond {None,2} x depth {1,2}; dim 7..20 x width {dim, dim+1, 50} x cond {None,2} (all-positive and mixed weights)",
             "coupling": f"dim 2..{3 if q else 4} x untransformed 1..dim-1 x cond {{None,2}} x width {{2,4}} x depth {{0,1}} x transformer {{1,2}} params",
             "bnaf": f"dim 1..{3 if q else 4} x block_dim 1..3 x depth 0..2 x cond {{None,2}}",
             "weight_assignments": ["all-positive", "mixed +-1", "mixed +-50", "dense (mask-free) raw arrays"],
@@ -43,6 +44,21 @@ def enumerate_cases(tier, seed):
                     for tp in (1, 2, 8):
                         cases.append({"id": f"maf|dim={dim}|cond={cond}|w={width}|d={depth}|tp={tp}", "kind": "maf", "dim": dim, "cond": cond,
                                       "w": width, "d": depth, "tp": tp, "x64": True, "seed": seed})
+    # hidden ranks are a function of (dim, cond_dim, width): "no permitted dependency is missing when width >= dim" is checked for
+    # EVERY width dim..2*dim+1 up to dim 6 and for widths {dim, dim+1, 50 (the flows' default)} up to dim 20
+    have = {c["id"] for c in cases}
+    for dim in range(2, 7):
+        for width in range(dim, 2 * dim + 2):
+            for cond in (None, 2):
+                for depth in (1, 2):
+                    cid = f"maf|dim={dim}|cond={cond}|w={width}|d={depth}|tp=1"
+                    if cid not in have:
+                        cases.append({"id": cid, "kind": "maf", "dim": dim, "cond": cond, "w": width, "d": depth, "tp": 1, "x64": True, "seed": seed, "lite": True})
+    for dim in range(7, 21):
+        for width in (dim, dim + 1, 50):
+            for cond in (None, 2):
+                cases.append({"id": f"maf|dim={dim}|cond={cond}|w={width}|d=1|tp=1", "kind": "maf", "dim": dim, "cond": cond, "w": width, "d": 1, "tp": 1,
+                              "x64": True, "seed": seed, "lite": True})
     for dim in range(2, (3 if q else 4) + 1):
         for u in range(1, dim):
             for cond in (None, 2):
@@ -181,6 +197,8 @@ def run_case(case):
         xs = [jnp.asarray(0.4 + 0.3 * np.arange(dim)), jnp.asarray([(-1.0) ** i * (0.5 + i) for i in range(dim)])]
         cs = [None] if cond is None else [jnp.asarray(0.6 + 0.2 * np.arange(cond)), jnp.asarray([(-1.0) ** i * 1.5 for i in range(cond)])]
         modes = ("init", "positive", "mixed1", "mixed50", "dense") if case.get("x64", True) else ("init", "positive", "pos30", "pos60")
+        if case.get("lite"):
+            modes = ("positive", "mixed1")  # connectivity (all-positive weights) and exact zeros of the forbidden entries
         for mode in modes:
             m = model if mode == "init" else _assign(model, mode, seed)
             for xi, x in enumerate(xs):
